@@ -135,11 +135,47 @@ def build_child(spec):
         return urwid.Pile(items)
     if k == "fixed":
         return FixedGrid(spec["cols"], spec["rows"], spec.get("greedy", False))
+    if k == "tree":
+        return build_tree(spec["tree"])
     if k == "flow":
         if "cur" in spec:
             return FlowCursor(spec["n"], spec.get("sel", True), spec.get("grab", []), spec.get("greedy", False), spec["cur"])
         return FlowKeys(spec["n"], spec.get("sel", False), spec.get("grab", []), spec.get("greedy", False))
     raise core.MachineryError("bad child kind " + str(k))
+
+
+def build_tree(t):
+    """Compositions whose canvas has cells spanning several shards: Pile / Columns of unequal heights.
+    ["t", lines] Text | ["pile", [..]] Pile | ["cols", [..], dividechars] Columns | ["f", cols, rows] fixed grid |
+    ["fpile", [..]] Pile of packed (fixed) children."""
+    import urwid
+    FixedGrid, _, _ = W()
+    k = t[0]
+    if k == "t":
+        return urwid.Text("\n".join(t[1]))
+    if k == "pile":
+        return urwid.Pile([build_tree(c) for c in t[1]])
+    if k == "cols":
+        return urwid.Columns([build_tree(c) for c in t[1]], dividechars=t[2] if len(t) > 2 else 0)
+    if k == "f":
+        return FixedGrid(t[1], t[2])
+    if k == "fpile":
+        return urwid.Pile([("pack", build_tree(c)) for c in t[1]])
+    raise core.MachineryError("bad tree node " + str(k))
+
+
+_FIXED_MEMO = {}
+
+
+def is_fixed(spec):
+    """True when Scrollable gives the wrapped widget the fixed size (): FLOW is not among its sizing modes."""
+    if spec["kind"] != "tree":
+        return spec["kind"] == "fixed"
+    key = core.canon(spec)
+    if key not in _FIXED_MEMO:
+        import urwid
+        _FIXED_MEMO[key] = urwid.FLOW not in build_child(spec).sizing()
+    return _FIXED_MEMO[key]
 
 
 def change_content(child, spec):
@@ -247,7 +283,8 @@ class C20(core.Check):
     rule = ("cases = (wrapped widget spec, ScrollBar options or none, force_forward, focus, history of render/resize, key, mouse, "
             "set_scrollpos, content-change ops); exhaustive small sweep (lines x heights x initial positions x pairs of keys/wheel "
             "events) plus random histories over Text (wrapping or not), Pile with Edit/SelectableIcon, fixed widgets wider/narrower "
-            "than the view, selectable key-grabbing flow widgets with and without cursor, ListBox under ScrollBar; non-trivial = some "
+            "than the view (including wider AND shorter), Pile/Columns compositions with unequal column heights and piles of fixed "
+            "widgets (multi-shard canvases) walked through every scroll position, selectable key-grabbing flow widgets with and without cursor, ListBox under ScrollBar; non-trivial = some "
             "render had to trim or drew a bar; distinct by hash of (case, outcome)")
     trusted_base = [
         "Coq 8.16.1 kernel (coqc; vm_compute for closed examples and the finite float/thumb grids)",
@@ -291,7 +328,7 @@ class C20(core.Check):
         top = sb or s
         focus = bool(case.get("focus", True))
         size = tuple(case["size"])
-        fixed = case["child"]["kind"] == "fixed"
+        fixed = is_fixed(case["child"])
         bw = max(1, bar[0]) if bar else 0
         outs, obs = [], []
         last_canvas_obs = {}
@@ -498,7 +535,7 @@ class C20(core.Check):
         obs = self.observations(case)
         bar = case.get("bar")
         l = [1 if bar else 0, bar[0] if bar else 0, 1 if case.get("force") else 0,
-             1 if case["child"]["kind"] == "fixed" else 0]
+             1 if is_fixed(case["child"]) else 0]
         size = tuple(case["size"])
         it = iter(obs)
         for op in case["ops"]:
@@ -646,7 +683,7 @@ class C20(core.Check):
         msgs = []
         bar = case.get("bar")
         bw = max(1, bar[0]) if bar else 0
-        fixed = case["child"]["kind"] == "fixed"
+        fixed = is_fixed(case["child"])
         mono = {}          # (size, total, child width) -> [(p, top)]
         prev_render = None  # (index, size, total, p, fullrows) of the last successful render
         pending = []       # ops since the last render
@@ -664,6 +701,8 @@ class C20(core.Check):
                 full_w = tr.get(str(-1 if fixed else w))
                 if full_w is None:
                     return msgs
+                if any(len(set(len(x) for x in t)) > 1 for t in tr.values() if t):
+                    return msgs     # the wrapped widget's own canvas is ragged (not a rectangle): outside the domain
                 want_bar = bool(bar) and len(full_w) > h
                 cwid = -1 if fixed else (w - bw if want_bar else w)
                 full = tr.get(str(cwid))
@@ -884,6 +923,8 @@ class C20(core.Check):
                         yield self.sweep_case(total, h, init, evs, bar)
         for _ in range(1500 if quick else 20000):
             yield self.random_case(rng)
+        yield from self.tree_cases(rng, tier)
+        yield from self.wide_short_fixed_cases(rng, tier)
         # thumb arithmetic alone: exhaustive small grid + boundary-biased large values
         hmax, rmax = (12, 40) if quick else (24, 90)
         for h in range(1, hmax + 1):
@@ -898,8 +939,90 @@ class C20(core.Check):
         for _ in range(150 if quick else 1500):
             yield self.random_listbox(rng)
 
+    # ---- multi-shard content: Pile/Columns compositions with unequal column heights, piles of fixed widgets
+    @staticmethod
+    def tree_shapes():
+        def t(tag, n):
+            return ["t", [f"{tag}{i}" for i in range(n)]]
+
+        def ones(tag, n):
+            return ["pile", [["t", [f"{tag}{i}"]] for i in range(n)]]
+        return [
+            ["pile", [t("h", 1), ["cols", [ones("L", 6), t("R", 8)]], t("z", 1)]],
+            ["pile", [t("h", 2), ["cols", [t("R", 7), ones("L", 3)]], t("z", 2)]],
+            ["cols", [ones("a", 5), t("b", 9), ones("c", 2)]],
+            ["cols", [t("a", 3), ["pile", [t("b", 2), ["cols", [ones("c", 4), t("d", 6)]]]]], 1],
+            ["pile", [["cols", [ones("a", 3), t("b", 5)]], ["cols", [t("c", 6), ones("d", 2)]]]],
+            ["pile", [ones("a", 2), ["cols", [t("b", 4), ones("c", 4), t("d", 1)]], ones("e", 3)]],
+            # packed fixed children of EQUAL width (Pile does not pad narrower fixed children: its own canvas is ragged then)
+            ["fpile", [["f", 5, 4], ["f", 5, 3], ["f", 5, 5]]],
+            ["fpile", [["f", 9, 2], ["f", 9, 6]]],
+        ]
+
+    def random_tree(self, rng):
+        def t(tag, n):
+            return ["t", [f"{tag}{i}" for i in range(n)]]
+
+        def ones(tag, n):
+            return ["pile", [["t", [f"{tag}{i}"]] for i in range(n)]]
+
+        def cell(tag):
+            return ones(tag, rng.choice([1, 2, 3, 5, 7])) if rng.random() < 0.5 else t(tag, rng.choice([1, 2, 4, 6, 9]))
+        shape = rng.choice(["pile-cols", "cols", "two-cols", "fpile", "nested"])
+        if shape == "pile-cols":
+            return ["pile", [t("h", rng.choice([0, 1, 2])), ["cols", [cell("L"), cell("R")], rng.choice([0, 0, 1])],
+                             t("z", rng.choice([1, 2, 3]))]]
+        if shape == "cols":
+            return ["cols", [cell(x) for x in "abc"[:rng.choice([2, 2, 3])]], rng.choice([0, 1])]
+        if shape == "two-cols":
+            return ["pile", [["cols", [cell("a"), cell("b")]], ["cols", [cell("c"), cell("d")]]]]
+        if shape == "nested":
+            return ["cols", [cell("a"), ["pile", [t("b", rng.choice([1, 2])), ["cols", [cell("c"), cell("d")]]]]]]
+        fw = rng.choice([1, 2, 3, 5, 8, 12])
+        return ["fpile", [["f", fw, rng.choice([1, 2, 3, 5])] for _ in range(rng.choice([2, 3, 4]))]]
+
+    def walk_case(self, tree, w, h, bar, n):
+        """Every scroll position in turn (set_scrollpos, then line by line), a render after each."""
+        ops = [["render", w, h]]
+        for p in range(1, n + 1):
+            ops += [["setpos", p], ["render", w, h]]
+        ops += [["key", "home"], ["render", w, h]]
+        for _ in range(n):
+            ops += [["key", "down"], ["render", w, h]]
+        return {"child": {"kind": "tree", "tree": tree}, "bar": bar, "force": False, "focus": True, "size": [w, h], "ops": ops}
+
+    def tree_cases(self, rng, tier):
+        quick = tier == "quick"
+        for i, tree in enumerate(self.tree_shapes()):
+            for h in ([2, 4] if quick else [1, 2, 3, 4, 6]):
+                for w in ([8] if quick else [6, 8, 13]):
+                    yield self.walk_case(tree, w, h, [None, [1, "right"], [1, "left"]][(i + h) % 3], 12)
+        for _ in range(120 if quick else 1500):
+            tree = self.random_tree(rng)
+            bar = rng.choice([None, None, [1, "right"], [2, "left"]])
+            bw = bar[0] if bar else 0
+            yield self.walk_case(tree, bw + rng.choice([4, 6, 8, 11]), rng.choice([1, 2, 3, 4, 5]), bar, rng.choice([6, 10, 14]))
+
+    def wide_short_fixed_cases(self, rng, tier):
+        """Fixed content wider than the view AND with fewer rows than it (cut on the right, blank rows below)."""
+        for cols, rows, w, h in [(9, 2, 5, 3), (12, 1, 4, 2), (7, 3, 6, 9), (20, 5, 10, 8), (6, 2, 5, 3), (9, 4, 8, 5)]:
+            for bar in (None, [1, "right"]):
+                bw = 1 if bar else 0
+                yield {"child": {"kind": "fixed", "cols": cols, "rows": rows}, "bar": bar, "force": False, "focus": True,
+                       "size": [w + bw, h],
+                       "ops": [["render", w + bw, h], ["key", "down"], ["render", w + bw, h], ["setpos", 3], ["render", w + bw, h],
+                               ["render", w + bw, rows], ["render", w + bw, rows + 1], ["render", cols + bw, rows + 2]]}
+        for _ in range(60 if tier == "quick" else 600):
+            cols, rows = rng.choice([4, 6, 9, 15]), rng.choice([1, 2, 3, 5])
+            w, h = rng.randrange(2, cols), rows + rng.choice([1, 2, 4])
+            yield {"child": {"kind": "fixed", "cols": cols, "rows": rows}, "bar": None, "force": False, "focus": rng.random() < 0.5,
+                   "size": [w, h], "ops": [["setpos", self.random_pos(rng)], ["render", w, h],
+                                           ["key", rng.choice(SCROLL_KEYS)], ["render", w, h]]}
+
     def random_child(self, rng):
-        k = rng.choice(["text", "text", "textlong", "pile", "fixed", "fixed", "flow", "flowcur"])
+        k = rng.choice(["text", "text", "textlong", "pile", "fixed", "fixed", "flow", "flowcur", "tree"])
+        if k == "tree":
+            return {"kind": "tree", "tree": self.random_tree(rng)}
         if k == "text":
             return self.text_child(rng.choice([0, 1, 2, 3, 4, 5, 6, 9, 14]))
         if k == "textlong":
